@@ -20,9 +20,42 @@ func gen(g *vh.Gen) {
 	}
 }
 
+// genSizes: contents of realistic and boundary sizes on both stores (the content is derived from the
+// delivery's tag; every Get, listing and visit of a history re-reads and compares the FULL content of
+// every message it returns, and every history ends with a listing of all mailboxes, i.e. all live
+// messages are read back after everything that was delivered or removed later).
+func genSizes(g *vh.Gen) {
+	small := []int{0, 1, 100, 4095, 4096, 4097}
+	big := []int{65535, 65536, 65537, 200000}
+	for i := 0; i < g.N(30, 1500); i++ {
+		sizes := append([]int{}, small...)
+		sizes = append(sizes, small...)
+		sizes = append(sizes, big...)
+		if i%8 == 0 || g.Tier == "thorough" && g.Chance(0.3) {
+			sizes = append(sizes, 1<<20-7, 1<<20+1)
+		}
+		names := sd.Names(g)
+		if len(names) > 3 {
+			names = names[:3]
+		}
+		capN := 0
+		if g.Chance(0.3) {
+			capN = 1 + g.Intn(3)
+		}
+		p := sd.Profile{MinOps: 6, MaxOps: 28, Sizes: sizes, PAdd: 0.45}
+		sd.EmitHistory(g, []string{"mem", "file"}, "direct", capN, 0, names, sd.Ops(g, len(names), p))
+	}
+	// the shortest history of the kind: a big message, a later delivery elsewhere, read the big one again
+	for _, sz := range []int{65536, 65537, 200000} {
+		ops := "a0:1600000001:" + vh.I(sz) + ",g0:k0,a1:1600000002:100,g0:k0,a0:1600000003:4097,g0:k0,l0,l1"
+		sd.EmitHistory(g, []string{"mem", "file"}, "direct", 0, 0, []string{"big", "small"}, ops)
+	}
+}
+
 func genAll(g *vh.Gen) {
 	gen(g)
 	sd.GenCollide(g)
+	genSizes(g)
 	// arrival order is not id order: a mailbox whose deliveries straddle the wrap of the id counter
 	// within one second (planted, see sd/wrap.go); listing, "latest", get/seen/remove by handle
 	for i := 0; i < g.N(12, 200); i++ {
